@@ -9,11 +9,19 @@
 (* Rejected events are reported as <<index, code>>; code bits:             *)
 (*   1 loader outcome differs (C05)      2 round trip differs (C01)        *)
 (*   4 panic (C04)                                                         *)
+(*   8 the INPUT is not what it claims: the harness could not build it, or *)
+(*     the binary does not parse (by the operational grammar Parser.tla)   *)
+(*     to the instructions it was made from - an error of the generator,   *)
+(*     never a verdict on the code                                         *)
 (***************************************************************************)
 EXTENDS Integers, Sequences, FiniteSets, TLC, Json, IOUtils, SpecFacts
 
 ClassOfInst(i) == LoaderClass(i.op)
 L == INSTANCE Loader WITH Class <- ClassOfInst
+
+P == INSTANCE Parser
+\* the binary fed through load_words is the encoding of e.insts (evaluated only for events that would be rejected)
+InputConforms(e) == LET r == P!Parse(e.in_words) IN r.hdr = "ok" /\ r.fault = <<>> /\ r.insts = e.insts
 
 Rec == ndJsonDeserialize(IOEnv.TRACE)
 VARIABLES l, bad
@@ -68,9 +76,10 @@ RoundTripOK(e) ==
 Code(e) ==
   IF e.direct.st = "panic" \/ e.words.st = "panic" \/ e.words.out_st = "panic" \/ e.words.re_st = "panic" THEN 4 + 1
   ELSE IF e.direct.st = "unbuildable" THEN 8
-  ELSE LET exp == L!Load(e.insts) IN
-       (IF DirectOK(e, exp) /\ WordsOK(e, exp) THEN 0 ELSE 1)
-       + (IF e.words.st = "ok" /\ ~Excluded(e) /\ ~RoundTripOK(e) THEN 2 ELSE 0)
+  ELSE LET exp == L!Load(e.insts)
+           c == (IF DirectOK(e, exp) /\ WordsOK(e, exp) THEN 0 ELSE 1)
+                + (IF e.words.st = "ok" /\ ~Excluded(e) /\ ~RoundTripOK(e) THEN 2 ELSE 0)
+       IN IF c # 0 /\ ~InputConforms(e) THEN 8 ELSE c
 
 \* C01 on an arbitrary binary the real loader accepted (no specification-side parse needed):
 \* header carried over, layout-ordered input word-identical, output is a fixed point of load
